@@ -1,4 +1,5 @@
 N = {"quick": 1200, "thorough": 20000}
+EMIT = {"quick": 24, "thorough": 600}
 PROP = dict(
     id="C14",
     module="FV.C14.Props",
@@ -6,21 +7,31 @@ PROP = dict(
     theorems=["filename_injective", "filename_injective_ignoring_case", "filename_no_reserved", "filename_digits_in_table",
               "persist_transparent", "kern_file_injective"],
     prelude="Require Import FV.C14.Model.\nFrom Coq Require Import List NArith ZArith QArith Bool.",
-    harness_args=lambda tier, seed: ["--seed", str(seed), "--n", str(N[tier])],
+    harness_args=lambda tier, seed: ["--seed", str(seed), "--n", str(N[tier]), "--emit", str(EMIT[tier])],
     rule="names drawn from adversarial classes (device names, case pairs, reserved characters, multi-byte "
          "characters, escape look-alikes, glyph-like) plus every single-letter case flip; kerning location "
          "pairs (half of them closer than 0.012). A case is non-trivial when the name is non-empty / the two "
-         "locations differ; distinct = distinct input.",
+         "locations differ; distinct = distinct input. Emit stream: eleven test-data sources and generated UFO / "
+         "designspace sources (glyph names differing only by case, device names, non-ASCII names, anchors, kerning with "
+         "groups, masters 0.001 apart) are each built without and with an IR directory through the real compiler; the two "
+         "fonts must be byte-identical, and every item of the finished front-end and back-end contexts (static metadata, "
+         "glyph order, metrics, features, kerning, every glyph / anchor / kerning instance, every table, every glyph and "
+         "gvar fragment) must equal what a fresh context restores from the directory (write-fonts tables: same "
+         "serialised bytes); one file per glyph, named by string_to_filename.",
     trusted_base=["Coq 8.16.1 kernel (coqc, vm_compute for case evaluation)",
                   "hand-written model FV.C14.Model tied to fontdrasil::paths::string_to_filename and "
-                  "fontir::paths::Paths::target_file by the correspondence run",
+                  "fontir::paths::Paths::target_file by the correspondence run; emit-ir transparency and read-back equality "
+                  "are evaluated on the real compiler (hook fontc::verif_hooks::generate_font_with_contexts)",
                   "Rust harness /verif/harness (vh c14)"],
     assumptions=["Rust char = Unicode scalar value modelled as N; UTF-8 length by code-point range",
-                 "file system and serde round trips are not modelled (rd is an arbitrary function in persist_transparent)",
+                 "file system and serde round trips are not modelled (rd is an arbitrary function in persist_transparent); they are "
+                 "exercised by the emit stream on the explored sources",
+                 "write-fonts tables are compared by their serialised bytes (a table has several in-memory representations); "
+                 "the post table is compared only when all glyph names are ASCII (other names are not valid post names)",
                  "case-insensitive file systems are modelled as ASCII case folding only"],
 )
 
 MANIFEST = dict(
     text='Coq theorems over the model of the file-name encoding (injectivity for all Unicode strings, no reserved characters, table index in range), of the kerning-instance file key, and of the persistent context map (persistence is invisible for every operation sequence, any stale disk content and any file-name collisions); the model is tied to the code on every run by evaluating it (vm_compute) on the same generated names/locations as the implementation. Partial: serde round trips and the file system are not modelled; byte-identity of fonts with/without --emit-ir is exercised end to end, not proved.',
-    note='Trusted: Coq kernel + vm_compute; hand-written model and its correspondence run; Rust harness. No axioms (Print Assumptions: closed under the global context).',
+    note='Trusted: Coq kernel + vm_compute; hand-written model and its correspondence run; Rust harness. Partial: byte-identical output with --emit-ir and read-back equality of every persisted item are evaluated on explored sources only (the serde / write-fonts round trips are not modelled). No axioms (Print Assumptions: closed under the global context).',
 )
